@@ -244,7 +244,20 @@ func (f *fenceDef) passes(id string, o *mObj) bool {
 	if f.glob != "" && !globMatch(f.glob, id) {
 		return false
 	}
-	if f.whereF != "" {
+	if f.whereF == "z" {
+		// the third coordinate of a point (0 when it has none): not a field, so it changes with
+		// a plain SET
+		v := 0.0
+		var p struct {
+			Coordinates []float64 `json:"coordinates"`
+		}
+		if o.kind == "point" && json.Unmarshal([]byte(o.json), &p) == nil && len(p.Coordinates) >= 3 {
+			v = p.Coordinates[2]
+		}
+		if v < f.whereLo || v > f.whereHi {
+			return false
+		}
+	} else if f.whereF != "" {
 		v := 0.0
 		if s, ok := o.fields[f.whereF]; ok {
 			x, err := strconv.ParseFloat(s, 64)
